@@ -213,14 +213,25 @@ def run(tier, seed):
                 'every parameter is forwarded in the slot of the same name of %s' % tgt[0]['name'], not bad, '; '.join(bad) or None)
     if nfw < 4:
         raise AnalysisBroken('fewer than 4 forwarding setters found')
-    # polar -> axis conversions
+    # polar -> axis conversions: the locals passed in the cone_axis_x/y/z slots of the forwarded call
     polar = []
+    targets = (MDL + '::_set_', MDL + '::set', MDL + '::set_with_aperture_rectangular_cut')
     for w in wrappers:
         L = Locals(w)
+        inner = [c for c in astu.calls(w['body']) if c['callee']['qn'] in targets]
+        if len(inner) != 1:
+            continue
+        c = inner[0]
+        tgt = [f for f in prog.fns(c['callee']['qn']) if len(f['params']) == len(c['args'])]
+        tgt = [f for f in tgt if (f['qn'], f.get('id')) == (c['callee']['qn'], c['callee'].get('id'))] or tgt
         tri = {}
-        for v in L.decl.values():
-            if v.get('name') in ('cx', 'cy', 'cz') and 'init' in v:
-                tri[v['name']] = v['init']
+        for prm, a in zip(tgt[0]['params'], c['args']):
+            a = astu.strip_casts(a)
+            role = prm['name'].rstrip('_')
+            if role in ('cone_axis_x', 'cone_axis_y', 'cone_axis_z') and a['k'] == 'Ref' and a.get('dk') == 'local':
+                v = L.decl.get(a['id'])
+                if v is not None and 'init' in v and not L.assigns.get(a['id']):
+                    tri['c' + role[-1]] = v['init']
         if tri:
             polar.append((w, tri))
     if len(polar) != 3:
@@ -420,7 +431,11 @@ def _degree_entry(rep, prog, cfg, setp):
                     '%s is converted by the factor pi/180 (found %s)' % (n['name'], coef), coef == (Fraction(1, 180), 1))
     if nconv < 4:
         raise AnalysisBroken('fewer than 4 degree conversions found in set(config)')
-    # label table
+    # label table: the local handed over in the `code` slot
+    codearg = astu.strip_casts(call['args'][slots.index('code')])
+    if codearg['k'] != 'Ref' or codearg.get('dk') != 'local':
+        raise AnalysisBroken('set(config): the species code passed to _set_ is not a local variable')
+    codename = codearg['name']
     labs = {}
     for n in astu.walk(cfg['body']):
         if n['k'] == 'If':
@@ -428,14 +443,14 @@ def _degree_entry(rep, prog, cfg, setp):
             if not strs:
                 continue
             assigned = [astu.src(x['b']) for x in astu.walk(n['t']) if x['k'] == 'Bin' and x['op'] == '=' and
-                        astu.src(x['a']) == 'code']
+                        astu.strip_casts(x['a']).get('id') == codearg['id']]
             throws = any(x['k'] == 'Throw' for x in astu.walk(n['t']))
-            for s in strs:
-                labs[s] = assigned[0] if assigned else ('throw' if throws else 'INVALID_PARTICLE')
+            for s_ in strs:
+                labs[s_] = assigned[0] if assigned else ('throw' if throws else 'INVALID_PARTICLE')
     bad = ['%r -> %s (expected %s)' % (k, labs.get(k), v) for k, v in LABELS.items() if labs.get(k) != v]
     extra = sorted(set(labs) - set(LABELS))
-    codev = [v for v in L.decl.values() if v.get('name') == 'code']
-    init_ok = codev and astu.src(codev[0].get('init')) == 'INVALID_PARTICLE'
+    codev = L.decl.get(codearg['id'])
+    init_ok = codev is not None and astu.src(codev.get('init')) == 'INVALID_PARTICLE'
     rep.add('SIBLINGS.entry', 'labels', where(cfg), 'the %d documented particle labels select their species; any other label '
             'is refused' % len(LABELS), not bad and not extra and bool(init_ok), '; '.join(bad + ['unreviewed label %r' % e for e in extra]) or None)
 
@@ -694,12 +709,21 @@ def _polar_decomposition(rep, prog, rot, L, angles, pm):
         rv = [v for v in L.decl.values() if v.get('name') == name]
         if rv and 'init' in rv[0]:
             i = astu.strip_casts(rv[0]['init'])
-            okref = i['k'] == 'OpCall' and i.get('op') == '[]' and astu.src(i['args'][1]) == 'ref_particle_index'
+            okref = i['k'] == 'OpCall' and i.get('op') == '[]' and _is_target_index(L, i['args'][1])
             if not okref:
                 detail = 'reference particle is %s' % astu.src(i)
     rep.add('ROTATION', 'target:reference-angles', where(rot, tv.get('l')), '(%s, %s) are the polar angles acos(pz/|p|), '
             'atan2(py, px) of the momentum of particle [ref_particle_index]' % (th[0], ph[0]), ok and okref, detail)
     return (th[0], ph[0]) if ok and okref else None
+
+
+def _is_target_index(L, e):
+    """e is the local assigned from `*<set>.begin()` (the single forced position)"""
+    e = astu.strip_casts(e)
+    if e['k'] != 'Ref' or e.get('dk') != 'local':
+        return False
+    asg = L.assigns.get(e['id'], [])
+    return len(asg) == 1 and astu.src(astu.strip_casts(asg[0]['b'])).startswith('*') and astu.src(astu.strip_casts(asg[0]['b'])).endswith('.begin()')
 
 
 def _update_internals(rep, prog):
@@ -796,12 +820,13 @@ def _sampling(rep, prog, rot, pm):
     R = _Resolver(prog, rot, L, pm)
     bounds = set()
     for w in whiles:
+        phin, cthn = _sampling_roles(w)
         for n in astu.walk(w['body']):
             if n['k'] == 'Decl':
                 for v in n['vars']:
                     i = astu.strip_casts(v['init']) if 'init' in v else None
                     if i is not None and i['k'] == 'Call' and i['callee']['qn'] in ('cos', 'std::cos') and \
-                            astu.strip_casts(i['args'][0])['k'] in ('Ref', 'Member') and astu.src(i['args'][0]) != 'phiC':
+                            astu.strip_casts(i['args'][0])['k'] in ('Ref', 'Member') and astu.src(i['args'][0]) != phin:
                         bounds.add(astu.src(i['args'][0]))
                         bnode = astu.strip_casts(i['args'][0])
     if len(bounds) != 1:
@@ -828,7 +853,7 @@ def _sampling(rep, prog, rot, pm):
             okA, detail)
     for w, mode in zip(whiles, ('target', 'selection')):
         ifs = [n for n in astu.walk(w['body']) if n['k'] == 'If' and any(x['k'] == 'Break' for x in astu.walk(n['t']))
-               and 'aperture' in astu.src(n['c'])]
+               and any(x['k'] == 'Call' and x['callee']['qn'] in ('std::abs', 'fabs', 'std::fabs') for x in astu.walk(n['c']))]
         ok = False
         detail = None
         if len(ifs) == 1:
@@ -969,6 +994,30 @@ class _Resolver:
         return a['name'] if astu.is_this_member(a) and a['name'] in SOURCES else None
 
 
+def _sampling_roles(w):
+    """(name of the azimuth local, name of the cos(theta) local) of one sampling loop: the two locals whose right-hand side holds a
+    deviate; the azimuth is the one scaled by pi"""
+    phi = cth = None
+    for n in astu.walk(w['body']):
+        pairs = []
+        if n['k'] == 'Decl':
+            pairs = [(v['name'], v['init']) for v in n['vars'] if 'init' in v]
+        elif n['k'] == 'Bin' and n['op'] == '=' and astu.strip_casts(n['a'])['k'] == 'Ref':
+            pairs = [(astu.strip_casts(n['a'])['name'], n['b'])]
+        for name, rhs in pairs:
+            has_draw = any(x['k'] == 'OpCall' and x.get('op') == '()' and x['callee']['qn'].endswith('i_random::operator()') for x in astu.walk(rhs))
+            if not has_draw:
+                continue
+            has_pi = any(x['k'] == 'Num' and (x.get('macro') == 'M_PI' or str(x.get('v', '')).startswith('3.14159')) for x in astu.walk(rhs))
+            if has_pi:
+                phi = name
+            else:
+                cth = name
+    if phi is None or cth is None:
+        raise AnalysisBroken('sampling loop at line %s: azimuth / cos(theta) deviates not recognised' % w.get('l'))
+    return phi, cth
+
+
 def _conjuncts(c):
     c = astu.strip_casts(c)
     if c['k'] == 'Paren':
@@ -979,24 +1028,25 @@ def _conjuncts(c):
 
 
 def _tangent_plane(rot, w, L):
-    """final values of x and y inside the sampling loop as polynomials of cosThetaC (k), cos/sin phiC"""
+    """final values of x and y inside the sampling loop as polynomials of cos(thetaC) (k), cos/sin phiC"""
     env = {}
+    phin, cthn = _sampling_roles(w)
 
     def res(e):
         e = astu.strip_casts(e)
         if e['k'] == 'Ref' and e.get('dk') == 'local':
             if e['name'] in env:
                 return env[e['name']]
-            if e['name'] == 'cosThetaC':
+            if e['name'] == cthn:
                 return Poly.sym('k')
-            if e['name'] == 'phiC':
+            if e['name'] == phin:
                 return Poly.sym('phiC')
         if e['k'] == 'Call' and e['callee']['qn'] in ('sqrt', 'std::sqrt'):
             inner = fa.ex(rot, e['args'][0], {}, 0)
             if inner == Poly.const(1) - _sq('k'):
                 return Poly.sym('S')           # sin(thetaC) >= 0
             raise AnalysisBroken('sqrt(%r) is not sin(thetaC)' % inner)
-        if e['k'] == 'Bin' and e['op'] == '/' and astu.num_value(astu.strip_casts(e['a'])) == 1 and astu.src(e['b']) == 'cosThetaC':
+        if e['k'] == 'Bin' and e['op'] == '/' and astu.num_value(astu.strip_casts(e['a'])) == 1 and astu.src(e['b']) == cthn:
             return Poly.sym('1/k')
         return None
     fa = _FieldAlg(None, resolver=res)
@@ -1065,91 +1115,133 @@ def _first_diff(a, b):
 
 
 def _selection(rep, prog, rot, pm):
+    """Roles are discovered from the structure, not from the names of the locals:
+       S   the std::set<int> local that receives insert() calls          (forced_particles)
+       P   the variable inserted                                          (pIndex)
+       SEL the bool declared false inside the loop body                   (selected)
+       RK  the int compared with _rank_ on the way to an insert           (pSelectedRank)
+       N   a local initialised from S.size(), if any                      (fpsize)
+       REF the int assigned from *S.begin()                               (ref_particle_index)"""
+    import re
     L = Locals(rot)
-    F = cppflow.Flow(rot)
     ins = [c for c in astu.calls(rot['body']) if c['k'] == 'MCall' and c['callee']['qn'].endswith('::insert')
-           and astu.src(c['obj']) == 'forced_particles']
-    if len(ins) < 2:
-        raise AnalysisBroken('fewer than 2 forced_particles.insert sites')
+           and 'std::set<int' in c['callee']['qn'] and astu.strip_casts(c['obj'])['k'] == 'Ref']
+    if len(ins) < 2 or len({astu.strip_casts(c['obj'])['id'] for c in ins}) != 1:
+        raise AnalysisBroken('selection: expected >= 2 insert sites into one std::set<int> local, found %d' % len(ins))
+    S = astu.strip_casts(ins[0]['obj'])
     loop = _enclosing(pm, ins[0], 'ForRange')
     if loop is None or any(_enclosing(pm, i, 'ForRange') is not loop for i in ins):
-        raise AnalysisBroken('forced_particles.insert sites are not in one range-for')
-    okrange = astu.src(loop['range']) == 'event_.grab_particles()'
+        raise AnalysisBroken('selection: the insert sites are not in one range-for')
+    okrange = astu.src(loop['range']) == 'event_.grab_particles()' or \
+        astu.src(loop['range']).endswith(('.grab_particles()', '.get_particles()'))
     part = loop['var']['name']
-    # all mutators of forced_particles
-    mut = [c for c in astu.calls(rot['body']) if c['k'] == 'MCall' and astu.src(c['obj']) == 'forced_particles' and
+    names = {S['name']: 'S'}
+    args = [astu.strip_casts(i['args'][0]) for i in ins]
+    P = args[0] if all(a['k'] == 'Ref' and a.get('dk') == 'local' and a.get('id') == args[0].get('id') for a in args) else None
+    if P is not None:
+        names[P['name']] = 'P'
+    sel = [v for v in L.decl.values() if v.get('ty') == 'bool' and _within(loop, v) and astu.src(v.get('init')) == 'false']
+    SEL = sel[0] if len(sel) == 1 else None
+    if SEL is not None:
+        names[SEL['name']] = 'SEL'
+    N = [v for v in L.decl.values() if 'init' in v and astu.src(astu.strip_casts(v['init'])) == S['name'] + '.size()' and not L.assigns.get(v['id'])]
+    if N:
+        names[N[0]['name']] = 'N'
+    REFv = [v for v in L.decl.values() if any(astu.src(astu.strip_casts(a['b'])) == '*%s.begin()' % S['name'] for a in L.assigns.get(v['id'], []))]
+    REF = REFv[0] if len(REFv) == 1 else None
+    if REF is not None:
+        names[REF['name']] = 'REF'
+    RK = None
+    for i in ins:
+        x = i
+        while id(x) in pm and pm[id(x)] is not loop:
+            par = pm[id(x)]
+            if par['k'] == 'If' and x is par.get('t'):
+                for t in _conjuncts(par['c']):
+                    t = astu.strip_casts(t)
+                    if t['k'] == 'Bin' and t['op'] == '==' and {astu.src(astu.strip_casts(t['a'])), astu.src(astu.strip_casts(t['b']))} >= {'_rank_'}:
+                        o = [y for y in (astu.strip_casts(t['a']), astu.strip_casts(t['b'])) if astu.src(y) != '_rank_']
+                        if o and o[0]['k'] == 'Ref' and o[0].get('dk') == 'local':
+                            RK = o[0]
+            x = par
+    if RK is not None:
+        names[RK['name']] = 'RK'
+
+    def canon(e):
+        t = astu.src(e) if isinstance(e, dict) else e
+        for k, v in names.items():
+            t = re.sub(r'(?<![A-Za-z0-9_])%s(?![A-Za-z0-9_])' % re.escape(k), v, t)
+        return t.replace('S.size()', 'N')
+    mut = [c for c in astu.calls(rot['body']) if c['k'] == 'MCall' and astu.strip_casts(c['obj']).get('id') == S['id'] and
            not c['callee'].get('const')]
-    rep.add('SELECTION', 'forced-set:writers', where(rot, loop.get('l')), 'forced_particles is filled only by the %d insert calls of '
-            'the selection loop over event_.grab_particles()' % len(ins), okrange and len(mut) == len(ins))
+    rep.add('SELECTION', 'forced-set:writers', where(rot, loop.get('l')), 'the set of forced positions is filled only by the %d insert calls of '
+            'the selection loop over the particles of the event' % len(ins), okrange and len(mut) == len(ins))
     bad = []
     for i in ins:
-        arg = astu.src(astu.strip_casts(i['args'][0]))
-        if arg != 'pIndex':
-            bad.append('line %s inserts %s' % (i.get('l'), arg))
+        if P is None:
+            bad.append('line %s: the inserts do not add one and the same local' % i.get('l'))
+            break
         gs = []
         x = i
         while id(x) in pm and pm[id(x)] is not loop:
             par = pm[id(x)]
             if par['k'] == 'If' and x is par.get('t'):
-                gs.append(astu.src(par['c']))
+                gs.append(canon(par['c']))
             x = par
-        if 'selected' not in gs:
-            bad.append('line %s is not under `if (selected)`' % i.get('l'))
-    rep.add('SELECTION', 'forced-set:guard', where(rot, ins[0].get('l')), 'every insert adds pIndex under `if (selected)`', not bad,
-            '; '.join(bad) or None)
-    # selected: false at each iteration, true only under the species test
-    sel = [v for v in L.decl.values() if v.get('name') == 'selected']
+        if 'SEL' not in gs:
+            bad.append('line %s is not under the `selected` flag' % i.get('l'))
+    rep.add('SELECTION', 'forced-set:guard', where(rot, ins[0].get('l')), 'every insert adds the position counter under the flag that is set by the '
+            'species test', not bad and SEL is not None, '; '.join(bad) or None)
     oksel = False
     detail = None
-    if len(sel) == 1 and _within(loop, sel[0]) and astu.src(sel[0].get('init')) == 'false':
-        asg = L.assigns.get(sel[0]['id'], [])
+    if SEL is not None:
+        asg = L.assigns.get(SEL['id'], [])
         if len(asg) == 1 and astu.src(asg[0]['b']) == 'true':
             g = _enclosing(pm, asg[0], 'If')
-            c = astu.src(g['c']) if g else ''
-            # (_code_ == INVALID) or (_code_ != INVALID and part.get_code() == _code_)
             oksel = g is not None and _species_test(g['c'], part)
-            detail = None if oksel else c
+            detail = None if oksel else (astu.src(g['c']) if g else None)
     rep.add('SELECTION', 'species-test', where(rot, loop.get('l')), 'a particle is selected iff no species is requested or its '
             'code equals the requested one', oksel, detail)
-    # pIndex: 0 before the loop, ++ once per iteration as a top-level statement, no continue
     okidx = False
-    pidx = [v for v in L.decl.values() if v.get('name') == 'pIndex']
-    if len(pidx) == 1 and astu.num_value(pidx[0].get('init')) == 0 and not _within(loop, pidx[0]):
-        top = loop['body']['s'] if loop['body']['k'] == 'Compound' else [loop['body']]
-        incs = [s for s in top if s['k'] == 'Expr' and s['e']['k'] == 'Un' and s['e']['op'] == '++' and astu.src(s['e']['e']) == 'pIndex']
-        allw = [n for r, how, n in statics.written_refs(rot['body']) if r.get('name') == 'pIndex']
-        okidx = len(incs) == 1 and top[-1] is incs[0] and len(allw) == 1 and \
-            not any(x['k'] == 'Continue' for x in astu.walk(loop['body']))
-    rep.add('SELECTION', 'index-counter', where(rot, loop.get('l')), 'pIndex starts at 0 and is incremented once at the end of every '
+    if P is not None:
+        pv = L.decl.get(P['id'])
+        if pv is not None and astu.num_value(pv.get('init')) == 0 and not _within(loop, pv):
+            top = loop['body']['s'] if loop['body']['k'] == 'Compound' else [loop['body']]
+            incs = [s_ for s_ in top if s_['k'] == 'Expr' and s_['e']['k'] == 'Un' and s_['e']['op'] == '++' and
+                    astu.strip_casts(s_['e']['e']).get('id') == P['id']]
+            allw = [n for r, how, n in statics.written_refs(rot['body']) if r.get('id') == P['id']]
+            okidx = len(incs) == 1 and top[-1] is incs[0] and len(allw) == 1 and \
+                not any(x['k'] == 'Continue' for x in astu.walk(loop['body']))
+    rep.add('SELECTION', 'index-counter', where(rot, loop.get('l')), 'the inserted counter starts at 0 and is incremented once at the end of every '
             'iteration: it is the position of the current particle', okidx)
-    # rank counting
     okrank = False
-    rk = [v for v in L.decl.values() if v.get('name') == 'pSelectedRank']
-    if len(rk) == 1 and astu.num_value(rk[0].get('init')) == 0:
-        allw = [n for r, how, n in statics.written_refs(rot['body']) if r.get('name') == 'pSelectedRank']
-        if len(allw) == 1:
+    if RK is not None:
+        rv = L.decl.get(RK['id'])
+        allw = [n for r, how, n in statics.written_refs(rot['body']) if r.get('id') == RK['id']]
+        if rv is not None and astu.num_value(rv.get('init')) == 0 and len(allw) == 1 and allw[0]['k'] == 'Un':
             g = _enclosing(pm, allw[0], 'If')
-            ranked = [i for i in ins if any('pSelectedRank == _rank_' in astu.src(pm[id(x)]['c']).replace('(', '').replace(')', '')
-                                             for x in [_climb_to_if(pm, i, loop)] if x is not None)]
-            okrank = g is not None and astu.src(g['c']) == 'selected' and len(ranked) == 1 and \
-                allw[0].get('l', 0) > ranked[0].get('l', 0)
-    rep.add('SELECTION', 'rank-counter', where(rot, loop.get('l')), 'pSelectedRank counts the selected particles seen so far; the '
-            'particle is forced when the count equals _rank_ (then counted)', okrank)
-    # guards of the two mutation blocks and of the throw
+            ranked = [i for i in ins if any('RK == _rank_' in canon(pm[id(x)]['c']).replace('(', '').replace(')', '') or
+                                             '_rank_ == RK' in canon(pm[id(x)]['c']).replace('(', '').replace(')', '')
+                                             for x in [_climb_to_if(pm, i, loop, RK['name'])] if x is not None)]
+            okrank = g is not None and canon(g['c']) == 'SEL' and len(ranked) == 1 and allw[0].get('l', 0) > ranked[0].get('l', 0)
+    rep.add('SELECTION', 'rank-counter', where(rot, loop.get('l')), 'a counter of the selected particles seen so far is compared with _rank_; the '
+            'particle is forced when they are equal (and then counted)', okrank)
     sites = [c for c in astu.calls(rot['body'], 'bxdecay0::particle::set_momentum')]
-    for s in sites:
+    for s_ in sites:
         gs = []
-        x = s
+        x = s_
         while id(x) in pm:
             par = pm[id(x)]
             if par['k'] == 'If' and x is par.get('t'):
-                gs.append(astu.src(par['c']))
+                gs.append(canon(par['c']))
             x = par
         outer = gs[-1] if gs else ''
-        target = 'ref_particle_index' in outer
-        want = ('_rank_ >= 0', 'ref_particle_index >= 0') if target else ('_rank_ < 0', 'fpsize > 0')
-        rep.add('SELECTION', 'guard:' + ('target' if target else 'selection'), where(rot, s.get('l')),
-                'the mutation block runs only under %s and %s' % want, all(w in outer for w in want), outer)
+        target = 'REF' in outer
+        want = ('_rank_ >= 0', 'REF >= 0') if target else ('_rank_ < 0', 'N > 0')
+        rep.add('SELECTION', 'guard:' + ('target' if target else 'selection'), where(rot, s_.get('l')),
+                'the mutation block runs only under %s and %s' % (('a rank was requested', 'a target was found') if target else
+                                                                    ('no rank was requested', 'something was selected')),
+                all(w in outer for w in want), outer)
     thr = [n for n in astu.walk(rot['body']) if n['k'] == 'Throw']
     okt = len(thr) == 1
     if okt:
@@ -1160,35 +1252,33 @@ def _selection(rep, prog, rot, pm):
             if par['k'] == 'If' and x is not par.get('c'):
                 if not (x is par.get('t')):
                     okt = False
-                gs.append(astu.src(par['c']))
+                gs.append(canon(par['c']))
             x = par
-        okt = okt and any('_error_on_missing_particle_' == g for g in gs) and any('fpsize == 0' in g for g in gs)
-    rep.add('SELECTION', 'error-on-missing', where(rot, thr[0].get('l') if thr else None), 'the only throw is under `fpsize == 0` and '
+        flat = ' && '.join(gs)
+        okt = okt and '_error_on_missing_particle_' in flat and ('N == 0' in flat or 'S.empty()' in flat)
+    rep.add('SELECTION', 'error-on-missing', where(rot, thr[0].get('l') if thr else None), 'the only throw is under "nothing selected" and '
             '`_error_on_missing_particle_`', okt)
-    # ref_particle_index: the single forced index in rank mode
-    rpi = [v for v in L.decl.values() if v.get('name') == 'ref_particle_index']
     okr = False
-    if len(rpi) == 1 and astu.num_value(rpi[0].get('init')) == -1:
-        asg = L.assigns.get(rpi[0]['id'], [])
+    if REF is not None and astu.num_value(REF.get('init')) == -1:
+        asg = L.assigns.get(REF['id'], [])
         if len(asg) == 1:
             g = _enclosing(pm, asg[0], 'If')
-            okr = astu.src(asg[0]['b']) == '*forced_particles.begin()' and g is not None and \
-                '_rank_ >= 0' in astu.src(g['c']) and 'fpsize == 1' in astu.src(g['c'])
-    rep.add('SELECTION', 'target-index', where(rot, rpi[0].get('l') if rpi else None), 'ref_particle_index is the single forced index '
-            '(rank mode), -1 otherwise', okr)
-    # get_last_target_index
+            okr = g is not None and '_rank_ >= 0' in canon(g['c']) and 'N == 1' in canon(g['c'])
+    rep.add('SELECTION', 'target-index', where(rot, REF.get('l') if REF else None), 'the target index is the single forced position '
+            '(rank mode, exactly one element in the set), -1 otherwise', okr)
     lt = [n for n in astu.walk(rot['body']) if n['k'] == 'Bin' and n['op'] == '=' and astu.is_this_member(n['a'], '_last_target_index_')]
-    vals = sorted(astu.src(n['b']) for n in lt)
-    rep.add('SELECTION', 'last-target-index', where(rot), '_last_target_index_ is reset to -1 on entry and set to ref_particle_index '
-            'after the rigid rotation', vals == ['-1', 'ref_particle_index'] and lt[0].get('l') < lt[1].get('l') and
+    vals = sorted(canon(n['b']) for n in lt)
+    rep.add('SELECTION', 'last-target-index', where(rot), '_last_target_index_ is reset to -1 on entry and set to the target index '
+            'after the rigid rotation', vals == ['-1', 'REF'] and lt[0].get('l') < lt[1].get('l') and
             _enclosing(pm, [n for n in lt if astu.src(n['b']) != '-1'][0], 'If') is not None, str(vals))
+    return REF
 
 
-def _climb_to_if(pm, node, stop):
+def _climb_to_if(pm, node, stop, rkname='pSelectedRank'):
     x = node
     while id(x) in pm and pm[id(x)] is not stop:
         par = pm[id(x)]
-        if par['k'] == 'If' and 'pSelectedRank' in astu.src(par['c']):
+        if par['k'] == 'If' and rkname in astu.src(par['c']):
             return x
         x = par
     return None
